@@ -4,7 +4,7 @@ From Coq Require Import ZArith List Bool PrimFloat.
 Import ListNotations.
 Require Import PyBase Solver SolverF SolveAll SolveAllF SolveAllFacts SolveAllExamples.
 Require Import SolveAllSpan SolveAllSpanFacts SolveAllSpanExamples SolverFacts3 SolveAllFacts2.
-Require Import SolveAllFacts3 SolveAllPeriod SolveAllPeriodFacts SolveAllExamples3.
+Require Import SolveAllFacts3 SolveAllFacts4 SolveAllPeriod SolveAllPeriodFacts SolveAllExamples3.
 Require Fsic.Gen.Generated.
 Open Scope Z_scope.
 
@@ -34,6 +34,11 @@ Section C05.
     end.
   Proof. exact (solve_eq_fold num sub absf ltb isfin zero ev before after L locate d o span start end_ s a b). Qed.
 
+  (* NOTE (what is definitional and what is not): `solve_M` is DEFINED as validation + iter_periods_M + run_periods, and run_periods
+     as one solve_t_M per period, so the three C05_run_periods_* statements below are unfoldings of the model (they make the fold
+     readable, they are not counted as covering a clause).  The substantive content is (i) which positions iter_periods yields
+     (C05_iter_periods_given / _every_span, C05_positions_exact) and (ii) that the real solve() IS this fold — which is not a
+     theorem but the correspondence K_solve plus the twin comparison (solve() vs. the plain loop of solve_t on a second instance). *)
   (* the fold IS "calling the single-period solver on each of those periods in turn": a returning solve_t appends
      (label, position, flag) and hands its state to the next period; a raising one ends the run with its state and exception *)
   Theorem C05_run_periods_cons_ret d o t lab ps s acc s1 b :
@@ -321,6 +326,7 @@ Section C05given.
   Variables (ev before after : hook num).
   Variable L : Type.
   Variable locate : L -> locres.
+  Notation solve_t_M := (solve_t_M num sub absf ltb isfin zero ev before after).
   Notation run_periods := (run_periods num sub absf ltb isfin zero ev before after L).
   Notation solve_M := (solve_M num sub absf ltb isfin zero ev before after L locate).
   Theorem C05_iter_periods_given d span start end_ a b :
@@ -336,7 +342,62 @@ Section C05given.
     | (s', Raise e) => (s', Raise e)
     end.
   Proof. exact (solve_eq_fold_given num sub absf ltb isfin zero ev before after L locate d o span start end_ s a b). Qed.
+  (* the returned triple, failure containment, untouched periods and offsets with a guard on the labels the caller GIVES only
+     (given_ok: a given label resolves to its position); nothing is asked for default start / end nor of the span's other labels *)
+  Theorem C05_solve_returns_positions_given d o span start end_ s a b s' res :
+    min_iter o <= max_iter o -> given_ok L locate start a -> given_ok L locate end_ b ->
+    resolves_start L d span start a -> resolves_end L d span end_ b ->
+    solve_M d o span start end_ s = (s', Ret res) ->
+    r_len res = (S b - a)%nat /\ length (r_visits res) = (S b - a)%nat /\
+    map (fun v : visit L => (snd (fst v), fst (fst v))) (r_visits res) = periods L span a b.
+  Proof. exact (solve_returns_positions_given num sub absf ltb isfin zero ev before after L locate d o span start end_ s a b s' res). Qed.
+  Theorem C05_failure_containment_given d o span start end_ s a b s' e :
+    hook_frame num (length span) ev -> hook_frame num (length span) before -> hook_frame num (length span) after ->
+    length (status s) = length span ->
+    min_iter o <= max_iter o -> given_ok L locate start a -> given_ok L locate end_ b ->
+    resolves_start L d span start a -> resolves_end L d span end_ b ->
+    solve_M d o span start end_ s = (s', Raise e) ->
+    exists j lab sj vs,
+      (a + j <= b)%nat /\ nth_error span (a + j) = Some lab /\
+      run_periods d o (firstn j (periods L span a b)) s [] = (sj, Ret vs) /\ length vs = j /\
+      solve_t_M d o (Z.of_nat (a + j)) sj = (s', Raise e) /\
+      (forall q, q <> (a + j)%nat -> same_at sj s' q) /\
+      (forall q, (q < a \/ a + j < q)%nat -> same_at s s' q).
+  Proof. exact (solve_failure_containment_given num sub absf ltb isfin zero ev before after L locate d o span start end_ s a b s' e). Qed.
+  Theorem C05_untouched_outside_range_given d o span start end_ s a b s' r :
+    hook_frame num (length span) ev -> hook_frame num (length span) before -> hook_frame num (length span) after ->
+    length (status s) = length span ->
+    min_iter o <= max_iter o -> given_ok L locate start a -> given_ok L locate end_ b ->
+    resolves_start L d span start a -> resolves_end L d span end_ b ->
+    solve_M d o span start end_ s = (s', r) ->
+    forall q, (q < a \/ b < q)%nat -> same_at s s' q.
+  Proof. exact (solve_untouched_outside_range_given num sub absf ltb isfin zero ev before after L locate d o span start end_ s a b s' r). Qed.
+  Theorem C05_solve_offset_before_span_rejected_given d o span start end_ s a b :
+    min_iter o <= max_iter o -> given_ok L locate start a -> given_ok L locate end_ b -> length (status s) = length span ->
+    resolves_start L d span start a -> resolves_end L d span end_ b -> (a <= b)%nat ->
+    Z.of_nat a + offset o < 0 ->
+    solve_M d o span start end_ s = (s, Raise IndexError).
+  Proof. exact (solve_offset_before_span_rejected_given num sub absf ltb isfin zero ev before after L locate d o span start end_ s a b). Qed.
+  Theorem C05_solve_offset_beyond_span_stops_given d o span start end_ s a b j :
+    min_iter o <= max_iter o -> given_ok L locate start a -> given_ok L locate end_ b -> length (status s) = length span ->
+    resolves_start L d span start a -> resolves_end L d span end_ b -> (a + j <= b)%nat ->
+    offset o <> 0 -> Z.of_nat (length span) <= Z.of_nat (a + j) + offset o ->
+    solve_M d o span start end_ s =
+    match run_periods d o (firstn j (periods L span a b)) s [] with
+    | (s1, Ret vs) => (s1, Raise IndexError)
+    | (s1, Raise e) => (s1, Raise e)
+    end.
+  Proof. exact (solve_offset_beyond_span_stops_given num sub absf ltb isfin zero ev before after L locate d o span start end_ s a b j). Qed.
 End C05given.
+
+(* KEPT FINDING (new, reproduced on /repo): next(model.iter_periods()) raises TypeError — PeriodIter.__next__ calls next() on a list —
+   although iter_periods() returns the pairs: "the first period of the range comes first" is REFUTED for the next() protocol
+   (for / list() / enumerate(), which solve() uses, are unaffected: the theorems above).  Candidate repair: /verif/fixes/perioditer-next.diff *)
+Theorem C05_period_iter_next_refuted :
+  exists d (span : list Z) p ps n,
+    iter_periods_M Z (locate_span SpList span) d span None None = Ret (n, p :: ps) /\
+    period_iter_next_M (iter_periods_M Z (locate_span SpList span) d span None None) = Raise TypeError.
+Proof. exact period_iter_next_refuted. Qed.
 
 (* the guards are decidable *)
 Theorem C05_nodup_b_spec l : nodup_b l = true <-> NoDup l.
@@ -479,6 +540,12 @@ Print Assumptions exS_defaults_beyond_span.
 Print Assumptions C05_solve_defaults_any_span.
 Print Assumptions C05_iter_periods_given.
 Print Assumptions C05_solve_eq_fold_given.
+Print Assumptions C05_solve_returns_positions_given.
+Print Assumptions C05_failure_containment_given.
+Print Assumptions C05_untouched_outside_range_given.
+Print Assumptions C05_solve_offset_before_span_rejected_given.
+Print Assumptions C05_solve_offset_beyond_span_stops_given.
+Print Assumptions C05_period_iter_next_refuted.
 Print Assumptions exS_default_end_repeated_label.
 Print Assumptions exS_given_repeated_label.
 Print Assumptions C05_solve_unique_ends_b.
